@@ -32,6 +32,7 @@ type IdleCase struct {
 	Steps  []IdleStep `json:"steps"`
 	Panic  bool       `json:"panic"` // the idle event handler panics
 	Free   bool       `json:"free"`  // callbacks are not gated (timing scenario): steps are active/io/tick/inactive only
+	InactivePanic bool `json:"inactive_panic"` // a handler behind the idle handler panics in HandleInactive (the channel's invoke scope absorbs it)
 	Random int        `json:"random"`
 	Seed   int64      `json:"seed"`
 }
@@ -98,6 +99,12 @@ func (p idleEventProbe) HandleException(ctx netty.ExceptionContext, ex netty.Exc
 	p.w.mu.Unlock()
 }
 
+type panicOnInactive struct{}
+
+func (panicOnInactive) HandleInactive(ctx netty.InactiveContext, ex netty.Exception) {
+	panic("verif: downstream inactive handler fails")
+}
+
 func runIdleCase(c *IdleCase) *IdleResult {
 	res := &IdleResult{ID: c.ID, Fails: []Fail{}, Actions: map[string]int{}}
 	failed := map[string]bool{}
@@ -135,6 +142,9 @@ func runIdleCase(c *IdleCase) *IdleResult {
 		h = netty.VerifReadIdleHandler(d)
 	}
 	pl.AddLast(h, idleEventProbe{w})
+	if c.InactivePanic {
+		pl.AddLast(panicOnInactive{})
+	}
 	ch := netty.NewChannel()(1, context.Background(), pl, tr, holdExecutor{})
 	go pl.ServeChannel(ch)
 	for i := 0; pl.Channel() == nil && i < 1000000; i++ {
@@ -227,7 +237,11 @@ loop:
 				t0 = time.Now().Add(-time.Duration(ticks) * tick)
 			}
 		case "inactive":
-			pl.FireChannelInactive(nil)
+			func() {
+				// (Channel.Close fires the event inside invokeMethod, which absorbs panics of a closed channel)
+				defer func() { _ = recover() }()
+				pl.FireChannelInactive(nil)
+			}()
 			w.mu.Lock()
 			w.inactAt = time.Now()
 			w.mu.Unlock()
